@@ -14,7 +14,7 @@ Open Scope Q_scope.
 
 Theorem C14_facts_pinned :
   gen_sim_facts =
-    mkSimFacts FrameAbs CmpLe FrameAbs CmpLe CmpGe true true false true false 100 1000 CmpLe CmpGt CmpLe true true.
+    mkSimFacts FrameAbs CmpLe FrameAbs CmpLe CmpGe true true false true false 100 1000 CmpLe CmpGt CmpLe true true true.
 Proof. vm_compute. reflexivity. Qed.
 Print Assumptions C14_facts_pinned.
 
@@ -79,6 +79,66 @@ Theorem C14_protocol_time_course_is_manual :
             end) t_start rows).
 Proof. exact (fun Y P U O flow solve_ok conv pupd yovr rows s t_start full => protocol_tc_is_manual Y P U O flow solve_ok conv pupd yovr gen_sim_facts (good_of_pinned _ C14_facts_pinned) rows s t_start full eq_refl eq_refl). Qed.
 Print Assumptions C14_protocol_time_course_is_manual.
+
+(** a protocol with positive durations, started in any reachable state (fresh or continued, also after an
+    override), is ACCEPTED step by step: it returns normally, appends exactly one segment per step, records for
+    segment i the parameters after applying steps 1..i ([scan_pars]), and ends exactly at
+    start + (cumulative end of the last step) *)
+Theorem C14_protocol_accepted :
+  forall (Y P U : Type) (flow : P -> Q -> Y -> Q -> Y) (solve_ok : P -> Q -> Y -> Q -> bool) (pupd : P -> U -> P)
+         (s : sim Y P) (steps : list (Q * U)) (k : nat),
+    (forall p t y t1, solve_ok p t y t1 = true) -> Inv2 Y P s -> has_errors Y P s = false ->
+    Forall (fun st : Q * U => 0 < fst st) steps ->
+    exists s', simulate_protocol Y P U flow solve_ok pupd gen_sim_facts s (make_protocol U steps) (S k) = (s', Done)
+      /\ Inv2 Y P s' /\ has_errors Y P s' = false
+      /\ pars_list Y P s' = pars_list Y P s ++ scan_pars P U pupd (s_mp s) (map snd steps)
+      /\ nsegs Y P s' = (nsegs Y P s + length steps)%nat
+      /\ (steps <> [] -> reached Y P s' == reached Y P s + lastq (map fst (make_protocol U steps)) 0).
+Proof. exact (fun Y P U flow solve_ok pupd => protocol_accepted Y P U flow solve_ok pupd gen_sim_facts (good_of_pinned _ C14_facts_pinned)). Qed.
+Print Assumptions C14_protocol_accepted.
+
+(** the time-course form is refused (nothing changes) exactly when its last requested point, in absolute
+    time, is not later than the time reached; otherwise it runs the loop over the sorted union *)
+Theorem C14_time_course_refusal :
+  forall (Y P U : Type) (flow : P -> Q -> Y -> Q -> Y) (solve_ok : P -> Q -> Y -> Q -> bool) (pupd : P -> U -> P)
+         (s : sim Y P) (rows : list (Q * U)) (pts : list Q) (rel : bool),
+    Inv2 Y P s -> has_errors Y P s = false -> pts <> [] ->
+    let start := reached Y P s in
+    let pts' := if rel then map (fun t => t + start) pts else pts in
+    let rows' := map (fun r : Q * U => (fst r + start, snd r)) rows in
+    (lastq pts' 0 <= start ->
+       simulate_protocol_time_course Y P U flow solve_ok pupd gen_sim_facts s rows pts rel = (s, RaisedValue))
+    /\ (start < lastq pts' 0 ->
+       simulate_protocol_time_course Y P U flow solve_ok pupd gen_sim_facts s rows pts rel
+       = protocol_tc_loop Y P U flow solve_ok pupd gen_sim_facts s start (qunion (map fst rows') pts') rows').
+Proof. exact (fun Y P U flow solve_ok pupd => ptc_refusal Y P U flow solve_ok pupd gen_sim_facts (good_of_pinned _ C14_facts_pinned)). Qed.
+Print Assumptions C14_time_course_refusal.
+
+(** the time-course form returns EXACTLY the start time (of a fresh simulator; otherwise the index so far),
+    then the points of the sorted duplicate-free union of step boundaries and requested points that lie in
+    (start, T_n] -- each once (the whole index is strictly increasing by [Inv2]), nothing else; points beyond
+    the last boundary are ignored; one segment per step, recorded with that step's parameter values.
+    ([C14_union_exact]: the union's members are exactly the boundaries and the requested points.) *)
+Theorem C14_axis_exact :
+  forall (Y P U : Type) (flow : P -> Q -> Y -> Q -> Y) (solve_ok : P -> Q -> Y -> Q -> bool) (pupd : P -> U -> P)
+         (s : sim Y P) (steps : list (Q * U)) (pts : list Q) (rel : bool),
+    (forall p t y t1, solve_ok p t y t1 = true) -> Inv2 Y P s -> has_errors Y P s = false ->
+    pts <> [] -> steps <> [] -> Forall (fun st : Q * U => 0 < fst st) steps ->
+    let start := reached Y P s in
+    let pts' := if rel then map (fun t => t + start) pts else pts in
+    let rows' := map (fun r : Q * U => (fst r + start, snd r)) (make_protocol U steps) in
+    let full := qunion (map fst rows') pts' in
+    start < lastq pts' 0 ->
+    exists s', simulate_protocol_time_course Y P U flow solve_ok pupd gen_sim_facts s (make_protocol U steps) pts rel = (s', Done)
+      /\ Inv2 Y P s' /\ has_errors Y P s' = false
+      /\ Qeql (index_of Y P s')
+              ((match s_vars s with None => [reached Y P s] | Some _ => index_of Y P s end)
+               ++ filter (fun t => Qltb start t && Qle_bool t (lastq (map fst rows') start)) full)
+      /\ pars_list Y P s' = pars_list Y P s ++ scan_pars P U pupd (s_mp s) (map snd steps)
+      /\ nsegs Y P s' = (nsegs Y P s + length steps)%nat
+      /\ reached Y P s' == lastq (map fst rows') start.
+Proof. exact (fun Y P U flow solve_ok pupd => ptc_axis_exact Y P U flow solve_ok pupd gen_sim_facts (good_of_pinned _ C14_facts_pinned)). Qed.
+Print Assumptions C14_axis_exact.
 
 (** the half-open windows partition the union: consecutive windows concatenate to the whole window *)
 Theorem C14_windows_partition :
